@@ -6,6 +6,7 @@ random_state are forwarded; (SLOTS) NormalDistribution.sample hands self.mean ->
 cov, n -> size to numpy.random.multivariate_normal and returns the draw unchanged; noise.normal hands
 var**0.5 as scale (so an ANM built from linear assignments and noise.normal(mean, var) has the noise law of
 the LGANM with the same parameters; the composition itself is C02's table).
+Also decided: (HISTORY) neither sampler reads or writes model state beyond the defining attributes.
 Not decided: anything statistical (rates, independence) - numpy's sampler is the trusted base.
 """
 from .common import *
